@@ -61,6 +61,7 @@ JudgeTW(c) ==
   IN {
     Cl("C19.result", valid, c.out = "ok" /\ c.res = TroughWells(c.n, ws)),
     Cl("C19.length", valid /\ c.out = "ok", Len(c.res) = c.n),
+    Cl("C19.list", c.out = "ok", c.islist),   \* "returns a list": the caller may compare it with ==, add to it, serialise it
     \* a whole-valued float (3.0): refusing it and treating it as 3 are both in keeping with "non-integer n is rejected"
     Cl("C19.reject", ~valid /\ c.ncls \notin {"intfloat", "np8", "npu8"}, c.out # "ok"),
     \* (likewise numpy integers: today refused as "not an int"; if taken, taken for their value)
@@ -182,6 +183,7 @@ JudgeDilPlan(c) ==
     \* the per-column capacities are the caller's: the plan reports them as given (c.vmaxobs = c.vmax above) and leaves the
     \* caller's table alone
     Cl("C14.vmaxkept", ok, c.vmaxkept),
+    Cl("C14.range", ok, c.rangeok),   \* xmin / xmax are the smallest / largest reported concentration (harness: the same floats)
     Cl("C14.whole", shaped, PlanWhole(c)),
     Cl("C14.bounds", shaped /\ PlanWhole(c), PlanBounds(c)),
     Cl("C14.budget", shaped /\ PlanWhole(c), PlanBudget(c)),
